@@ -523,6 +523,7 @@ def main_check(pid, tier):
                 'known_findings': dict(knownhits),
                 'excluded_by_construction': dict(excluded),
                 'exhaustive': bool(getattr(prop, 'EXHAUSTIVE', {}).get(tier, False)),
+                'exhaustive_space': getattr(prop, 'EXHAUSTIVE_SPACE', ''),
                 'shards': len(allshards),
                 'technique': getattr(prop, 'TECHNIQUE', ''),
             },
